@@ -517,12 +517,24 @@ def decodeMsg (buf : Bytes) : Except DecErr Msg := decodeMsgAux (buf.length + 1)
 def wsTag (path : String) : Option Bytes :=
   if path = "C14Echo" then some [47, 69, 99, 104, 111]        -- "/Echo"
   else if path = "C14Swap" then some [47, 83, 119, 97, 112]   -- "/Swap"
+  else if path = "C14Key" then some [47, 75, 101, 121]        -- "/Key"
   else none
+
+/-- the request of path `C14Key` is `{A int64; P kyber.Point}`: `P` is a field of interface type,
+present (a marshalled point: type id and 32 bytes, of which the handler echoes the 32 bytes) or
+absent; the correspondence run sends well-formed encodings only -/
+def decodeKey (buf : Bytes) : Except DecErr Msg :=
+  match decodeMsg buf with
+  | .ok m => .ok { a := m.a, s := m.s.drop (m.s.length - 32), b := [] }
+  | .error e => .error e
+
+def decodePath (path : String) (buf : Bytes) : Except DecErr Msg :=
+  if path = "C14Key" then decodeKey buf else decodeMsg buf
 
 /-- the service state of the concrete service: the number of handler invocations -/
 def concreteWs : WsSvc Nat Msg Reply where
   registered := fun p => (wsTag p).isSome
-  decode := fun _ buf => decodeMsg buf
+  decode := fun p buf => decodePath p buf
   call := fun n p m => (n + 1, transform ((wsTag p).getD []) m)
   encode := fun _ => some []      -- the reply bytes are compared in decoded form (see `Drv`)
 
@@ -655,7 +667,7 @@ def wsShow (st : State) (path : String) (buf : Bytes) : State × String :=
   let r := processClientRequest concreteWs st.calls path buf
   let txt := match r.2 with
     | .reply _ =>
-      match decodeMsg buf with
+      match decodePath path buf with
       | .ok m => (match transform ((wsTag path).getD []) m with
         | .ret rep => "ok " ++ showReply rep
         | _ => "model-inconsistent")
@@ -707,6 +719,7 @@ def step (s : State) (toks : List String) : State × String :=
     | some r => r
     | none => (s, "bad-op")
   | ["barrier"] => (s, "ok")
+  | ["procs", n] => (s, if n.toNat?.isSome then "ok" else "bad-op")   -- GOMAXPROCS of the server process: no effect
   | ["calls"] => (s, toString s.calls)
   | _ => (s, "bad-op")
 
